@@ -179,7 +179,8 @@ def gen_tl(rnd, idx):
     """interval / impulse atoms as facts and goals on plain predicates, agents and smart types (C06)"""
     text = "predicate I0(real x) : Interval { duration >= 1.0; }\npredicate M0(real y) : Impulse { }\n"
     text += "predicate G0() : Interval { goal i = new I0(x:2.0); goal m = new M0(y:1.0); i.start >= start; m.at >= i.end; }\n"
-    text += "class Ag : Agent { predicate Act(real k) : Interval { duration >= 2.0; } predicate Sig() : Impulse { } }\nAg ag = new Ag();\n"
+    text += "class Ag : Agent { predicate Act(real k) : Interval { duration >= 2.0; } predicate Sig() : Impulse { } predicate Carry() : Act { } predicate Alarm() : Sig { } predicate Survey() : Interval { fact b = new Sig(at:start); duration >= 4.0; end >= 5.0; } }\nAg ag = new Ag();\n"
+    text += "predicate I1(real z) : I0 { }\npredicate M1() : M0 { }\n"       # temporal only through another predicate
     text += "class SV : StateVariable { predicate S() { duration >= 1.0; } }\nSV sv = new SV();\n"
     text += "ReusableResource rr = new ReusableResource(5.0);\n"
     # predicates declared inside a plain (non smart) class, in a class derived from one, in a class derived from a smart type; empty rule bodies;
@@ -197,12 +198,23 @@ def gen_tl(rnd, idx):
         kind = rnd.choice(["fact", "goal"])
         c = rnd.random()
         nm = "t%d" % i
+        extra_after = None
         if c < 0.45 and rnd.random() < 0.5:
             what = rnd.choice(["cam.Rec(q:2.0)", "cam.Shot()", "cam.Idle()", "cam.Ses()", "cam2.Pan(a:1.0)", "cam2.Rec(q:3.0)", "cam2.Shot()", "ag2.Wave()", "ag2.Blink()", "ag2.Act(k:2.0)",
-                               "sv2.E()", "E0()", "bat.Drain(amount:1.0)", "bat.Charge(amount:2.0)"])
+                               "sv2.E()", "E0()", "bat.Drain(amount:1.0)", "bat.Charge(amount:2.0)",
+                               "ag.Carry(k:1.0)", "ag.Alarm()", "ag.Carry(k:2.0)", "ag.Alarm()", "I1(x:1.0, z:2.0)", "M1(y:3.0)", "ag.Survey()", "ag.Survey()", "ag.Sig(at:%d.0)" % rnd.randint(0, 4)])
+            if "Survey" in what:
+                kind = "goal"
+                # an impulse the rule's own fact could be unified with, and (often) a deadline the rule forbids: a solver that ties the rest of the
+                # rule to that fact instead of to the goal finds a "plan" by unifying the fact away
+                stmts.append("fact sg%d = new ag.Sig(at:%d.0);" % (i, rnd.randint(0, 2)))
+                if rnd.random() < 0.6:
+                    extra_after = "{ %s.end == %d.0; } or { %s.end == %d.0; }" % (nm, rnd.randint(2, 4), nm, rnd.randint(6, 8))
             if "Ses" in what:
                 kind = "goal"
             stmts.append("%s %s = new %s;" % (kind, nm, what))
+            if extra_after:
+                stmts.append(extra_after)
             if "sv2.E" in what:
                 stmts.append("%s.start >= %s;" % (nm, f2(i * 3)))
                 stmts.append("%s.end <= %s;" % (nm, f2(i * 3 + 2)))
@@ -224,7 +236,7 @@ def gen_tl(rnd, idx):
             stmts.append("%s %s = new rr.Use(amount:%s, duration:%s);" % (kind, nm, f2(rnd.randint(0, 5)), f2(rnd.randint(0, 3))))
         # constraints that tempt a solver that forgot the temporal rule
         k = rnd.random()
-        if "new M0" in stmts[-1] or "Sig" in stmts[-1] or "Shot" in stmts[-1] or "Blink" in stmts[-1]:
+        if "new M0" in stmts[-1] or "Sig" in stmts[-1] or "Shot" in stmts[-1] or "Blink" in stmts[-1] or "Alarm" in stmts[-1] or "new M1" in stmts[-1]:
             if k < 0.3:
                 stmts.append("%s.at >= %s;" % (nm, f2(rnd.randint(0, 6))))
         elif "G0" not in stmts[-1] and "sv2.E" not in stmts[-1]:
@@ -235,7 +247,10 @@ def gen_tl(rnd, idx):
     stmts.append("horizon <= %s;" % f2(rnd.choice([8, 12, 30, 60])))
     if rnd.random() < 0.5:
         stmts.append("origin >= %s;" % f2(rnd.choice([0, 1, 2])))
-    return {"family": "tl", "id": "tl-%d" % idx, "text": text + "\n".join(stmts) + "\n", "planted": False}
+    # constraints the rules of some predicates put on the atom's own parameters (checked on every active goal of that predicate)
+    rule_table = {"Ag:Survey": [("geq", ("id", ["duration"]), num(4)), ("geq", ("id", ["end"]), num(5))], "Ag:Act": [("geq", ("id", ["duration"]), num(2))],
+                  "I0": [("geq", ("id", ["duration"]), num(1))], "Cam:Ses": [("geq", ("id", ["duration"]), num(3))]}
+    return {"family": "tl", "id": "tl-%d" % idx, "text": text + "\n".join(stmts) + "\n", "planted": False, "rule_table": rule_table}
 
 
 def gen_rules(rnd, idx):
